@@ -1,4 +1,4 @@
-import Blots.Lemmas.ExprPegOps
+import Blots.Lemmas.ExprPeg2Ops
 /-
   Text-level round trip for the fragment (C10), part 2 (part 1: `Lemmas/ExprPegOps.lean`):
 
@@ -92,6 +92,27 @@ def LamHead.namesOk (h : LamHead) : Bool :=
 def LamSafe (its : List PItem) : Prop :=
   ∀ op : BinOp, PItem.inf (PrattRT.ruleOf op) ∈ its → isChain op = false
 
+/-- what separates two statements of a do-block (and the last one from `return`): blanks, `;`,
+    any layout — or a layout string with a line break in it -/
+inductive Sep where
+  | semi (w l : Lay)
+  | line (g : Lay)
+
+def Sep.text : Sep → List Char
+  | .semi w l => layChars w ++ ';' :: layChars l
+  | .line g => layChars g
+
+def Sep.isLine : Sep → Bool
+  | .semi .. => false
+  | .line _ => true
+
+/-- blanks only in front of a `;`; a line-break separator has a line break -/
+def Sep.ok : Sep → Bool
+  | .semi w _ => wsOnly w
+  | .line g => g.any fun a => !a.isWs
+
+def retLit : List Char := ['r', 'e', 't', 'u', 'r', 'n']
+
 mutual
 /-- concrete syntax of the fragment: the tree with every layout string and every pair of
     parentheses written out -/
@@ -128,6 +149,8 @@ inductive CST where
   | rec0 : Lay → CST
   /-- `{ lay entries close` -/
   | record : Lay → Ents → Close → CST
+  /-- `do lay { lay statements return blanks e lay }` -/
+  | doB : Lay → Lay → Stmts → Lay → CST → Lay → CST
 /-- a non-empty argument / item list: each element possibly spread (`...a`), separated by
     `blanks , layout` -/
 inductive Args where
@@ -152,6 +175,10 @@ inductive Ent where
 inductive Ents where
   | last : Ent → Ents
   | cons : Ent → Lay → Lay → Ents → Ents
+/-- the statements of a do-block, each with the separator behind it -/
+inductive Stmts where
+  | nil : Stmts
+  | cons : CST → Sep → Stmts → Stmts
 end
 
 namespace CST
@@ -176,6 +203,9 @@ def text : CST → List Char
       (t.text ++ (layChars l3 ++ (elseLit ++ (layChars l4 ++ e.text)))))))))
   | .rec0 l => '{' :: (layChars l ++ ['}'])
   | .record l es c => '{' :: (layChars l ++ (entsText es ++ c.text '}'))
+  | .doB l0 l1 ss w e l2 =>
+    'd' :: 'o' :: (layChars l0 ++ '{' :: (layChars l1 ++ (stmtsText ss ++ (retLit ++
+      (layChars w ++ (e.text ++ (layChars l2 ++ ['}'])))))))
 def argsText : Args → List Char
   | .last sp a => spreadChars sp ++ a.text
   | .cons sp a w l rest =>
@@ -192,6 +222,9 @@ def entText : Ent → List Char
 def entsText : Ents → List Char
   | .last e => entText e
   | .cons e w l rest => entText e ++ (layChars w ++ ',' :: (layChars l ++ entsText rest))
+def stmtsText : Stmts → List Char
+  | .nil => []
+  | .cons s sep rest => s.text ++ (sep.text ++ stmtsText rest)
 end
 
 mutual
@@ -213,6 +246,7 @@ def tree : CST → Expr
   | .cond _ c _ _ t _ _ e => .cond c.tree t.tree e.tree
   | .rec0 _ => .record []
   | .record _ es _ => .record (entsTrees es)
+  | .doB _ _ ss _ e _ => .doBlock (stmtsTrees ss) (.mk [] e.tree none)
 def argsTrees : Args → List Expr
   | .last sp a => [argTree sp a.tree]
   | .cons sp a _ _ rest => argTree sp a.tree :: argsTrees rest
@@ -227,6 +261,10 @@ def entTree : Ent → Entry
 def entsTrees : Ents → List Entry
   | .last e => [entTree e]
   | .cons e _ _ rest => entTree e :: entsTrees rest
+/-- the statements as the conversion without `preserve_comments` builds them -/
+def stmtsTrees : Stmts → List Item
+  | .nil => []
+  | .cons s _ rest => .mk [] s.tree none :: stmtsTrees rest
 end
 
 /-- the item sequence of the `expression` pair: a parenthesised sub-expression is ONE
@@ -248,10 +286,44 @@ def items : CST → List PItem
   | .cond _ c _ _ t _ _ e => [.prim (.cond c.tree t.tree e.tree)]
   | .rec0 _ => [.prim (.record [])]
   | .record _ es _ => [.prim (.record (entsTrees es))]
+  | .doB _ _ ss _ e _ => [.prim (.doBlock (stmtsTrees ss) (.mk [] e.tree none))]
 
 def isParen : CST → Bool
   | .paren .. => true
   | _ => false
+
+/-- the text is one of the word operators `and` / `or` / `via` / `into` / `where` -/
+def wordOpText (w : List Char) : Bool := naturalLits.any fun x => x.2 == w
+
+/-- a parameter list that `format_single_line` may write as one bare name that is a word
+    operator (`via => …`) -/
+def lamHeadOk : List LArg → Bool
+  | [a] => !wordOpText a.name.toList
+  | _ => true
+
+/-- THE TEXT IS NOT TAKEN FOR THE CONTINUATION OF AN EXPRESSION ON THE LINE BEFORE IT: it does
+    not start with a prefix minus (a binary minus for the grammar), and its first word is not
+    one of the word operators that are no reserved words (`via`, `into`, `where`) — as the name
+    of a variable at the start of a statement `where into x` would continue the statement
+    before it (`a` ⏎ `where into x` is `a where into` and a stray `x`). -/
+def headOk : CST → Prop
+  | .atom e => wordOpText (atomText e) = false
+  | .str _ _ => True
+  | .bin _ l _ _ _ => l.headOk
+  | .un op _ => op = .not
+  | .fact e => e.headOk
+  | .paren _ _ _ => True
+  | .call0 f _ => f.headOk
+  | .call f _ _ _ => f.headOk
+  | .access e _ _ _ => e.headOk
+  | .dot e _ => e.headOk
+  | .list0 _ => True
+  | .list _ _ _ => True
+  | .lambda hd _ _ _ => lamHeadOk hd.args = true
+  | .cond .. => True
+  | .rec0 _ => True
+  | .record _ _ _ => True
+  | .doB .. => True
 
 /-- admissible layout around a binary operator: a word operator needs layout before it and
     blanks (no line break) after it; a symbol operator takes any layout on both sides,
@@ -283,6 +355,8 @@ def LayoutOk : CST → Prop
       c.LayoutOk ∧ t.LayoutOk ∧ e.LayoutOk
   | .rec0 _ => True
   | .record _ es c => EntsLayoutOk es ∧ c.okList = true
+  | .doB l0 _ ss w e _ =>
+    (l0 ≠ [] ∧ w ≠ [] ∧ wsOnly w = true) ∧ StmtsLayoutOk ss ∧ e.LayoutOk
 /-- in front of a comma blanks only; behind it anything -/
 def ArgsLayoutOk : Args → Prop
   | .last _ a => a.LayoutOk
@@ -301,7 +375,15 @@ def EntLayoutOk : Ent → Prop
 def EntsLayoutOk : Ents → Prop
   | .last e => EntLayoutOk e
   | .cons e w _ rest => EntLayoutOk e ∧ wsOnly w = true ∧ EntsLayoutOk rest
+def StmtsLayoutOk : Stmts → Prop
+  | .nil => True
+  | .cons s sep rest => s.LayoutOk ∧ sep.ok = true ∧ StmtsLayoutOk rest
 end
+
+/-- the next statement (if any; else `return` follows) may stand behind a line break -/
+def StmtsHeadOk : Stmts → Prop
+  | .nil => True
+  | .cons s _ _ => s.headOk
 
 /-- a field name: identifier-shaped and not a reserved word (the `identifier` rule) -/
 def fieldOk (n : String) : Bool := identShape n.toList && !Gen.grammarReserved.contains n
@@ -333,6 +415,7 @@ def Shaped : CST → Prop
   | .cond _ c _ _ t _ _ e => c.Shaped ∧ t.Shaped ∧ e.Shaped
   | .rec0 _ => True
   | .record _ es _ => EntsShaped es
+  | .doB _ _ ss _ e _ => StmtsShaped ss ∧ e.Shaped
 def ArgsShaped : Args → Prop
   | .last _ a => a.Shaped
   | .cons _ a _ _ rest => a.Shaped ∧ ArgsShaped rest
@@ -346,6 +429,10 @@ def EntShaped : Ent → Prop
 def EntsShaped : Ents → Prop
   | .last e => EntShaped e
   | .cons e _ _ rest => EntShaped e ∧ EntsShaped rest
+/-- a statement behind a line break does not continue the one before it (`headOk`) -/
+def StmtsShaped : Stmts → Prop
+  | .nil => True
+  | .cons s sep rest => s.Shaped ∧ (sep.isLine = true → StmtsHeadOk rest) ∧ StmtsShaped rest
 end
 
 /-- well-formed concrete syntax -/
@@ -416,14 +503,14 @@ theorem ex_of_term {lam : Bool} {cs cs' rest : List Char} {e : Expr} {pre : List
   have := ex_intro ho hta
   simpa using this
 
-/-- a term that is neither a conditional nor a lambda -/
+/-- a term that is neither a conditional nor a do-block nor a lambda -/
 theorem termR_of_term2 {cs : List Char} {x : Expr × List Char} {f : Nat}
-    (hc : ifHead cs = none) (hl : lambdaHead cs = none) (h : term2R f cs = .ok x) :
-    termR (f + 1) cs = .ok x := by
+    (hc : ifHead cs = none) (hd : doHead cs = none) (hl : lambdaHead cs = none)
+    (h : term2R f cs = .ok x) : termR (f + 1) cs = .ok x := by
   cases f with
   | zero => rw [term2R_zero] at h; cases h
   | succ g =>
-    rw [termR_succ, condR_succ, hc, lamR_succ, hl]
+    rw [termR_succ, condR_succ, hc, doR_succ, hd, lamR_succ, hl]
     exact h
 
 /-- a prefix operator in front of an operand -/
@@ -657,6 +744,9 @@ theorem cparses : ∀ (c : CST), c.Shaped → CParses c
   | .record _ _ _, _ => by
     intro rbp rest _ _ e' rest' hk
     exact PExpr.prim hk
+  | .doB .., _ => by
+    intro rbp rest _ _ e' rest' hk
+    exact PExpr.prim hk
 
 /-- the items of a well-shaped CST parse back to its tree -/
 theorem cst_pratt (c : CST) (h : c.Shaped) : prattParse c.items = some c.tree := by
@@ -680,6 +770,7 @@ theorem cst_pratt (c : CST) (h : c.Shaped) : prattParse c.items = some c.tree :=
     | cond w c l1 l2 t l3 l4 e => trivial
     | rec0 l => trivial
     | record l es c => trivial
+    | doB l0 l1 ss w e l2 => trivial
     | paren a e b => rename_i hp; cases hp
   have := cparses c h 0 [] (Nat.zero_le _) hfit c.tree [] (PLoop.stop lbp_nil (by omega))
   simp only [List.append_nil] at this
@@ -760,6 +851,7 @@ theorem text_start : ∀ (c : CST), c.Shaped → ∃ x tl, c.text = x :: tl ∧ 
   | .cond w c l1 l2 t l3 l4 e, _ => ⟨'i', _, rfl, by decide⟩
   | .rec0 l, _ => ⟨'{', _, rfl, by decide⟩
   | .record l es c, _ => ⟨'{', _, rfl, by decide⟩
+  | .doB .., _ => ⟨'d', _, rfl, by decide⟩
 end
 
 /-- first character of an argument list: that of an operand, or the `.` of `...` -/
@@ -938,8 +1030,12 @@ theorem exprR_stop (lam : Bool) {c : Char} (X : List Char) (hc : stopChar c = tr
   have hci : c ≠ 'i' := by
     simp only [stopChar, Bool.or_eq_true, beq_iff_eq] at hc
     rcases hc with ((rfl | rfl) | rfl) | rfl <;> decide
+  have hcd : c ≠ 'd' := by
+    simp only [stopChar, Bool.or_eq_true, beq_iff_eq] at hc
+    rcases hc with ((rfl | rfl) | rfl) | rfl <;> decide
   have ht : termR (f + 2) (c :: X) = .fail := by
-    rw [termR_succ, condR_succ, ifHead_none_of_head X hci, lamR_succ, lambdaHead_stop X hc]
+    rw [termR_succ, condR_succ, ifHead_none_of_head X hci, doR_succ, doHead_none_of_head X hcd,
+      lamR_succ, lambdaHead_stop X hc]
     exact ht2
   rw [exprR_succ, operandR_succ, prefixStar_none (prefixUsage_stop X hc), ht]
 
@@ -1285,6 +1381,22 @@ theorem lead : ∀ (c : CST), c.Shaped → c.LayoutOk → Lead c
   | .list l as c, _, _ => Or.inl ⟨'[', _, rfl, by decide, by decide⟩
   | .rec0 l, _, _ => Or.inl ⟨'{', _, rfl, by decide, by decide⟩
   | .record l es c, _, _ => Or.inl ⟨'{', _, rfl, by decide, by decide⟩
+  | .doB l0 l1 ss w e l2, _, hl => by
+    obtain ⟨⟨hl0, _, _⟩, _⟩ := hl
+    refine Or.inr ⟨['d', 'o'], layChars l0 ++ '{' :: (layChars l1 ++ (CST.stmtsText ss ++ (retLit ++
+      (layChars w ++ (e.text ++ (layChars l2 ++ ['}'])))))), by simp [CST.text],
+      by decide, Or.inr ?_, Or.inr ?_⟩
+    · refine ⟨?_, l0, '{', _, rfl,
+        Stopper.of_char _ (by decide) (by decide) (by decide) (by decide), fun e => by cases e⟩
+      cases l0 with
+      | nil => exact absurd rfl hl0
+      | cons a w' => cases a <;> exact boundary_cons (by decide)
+    · intro X hb
+      have hf : firstLit reservedLits (['d', 'o'] ++ X) = some (['d', 'o'], X) := by
+        simp [firstLit, reservedLits, Gen.grammarReserved, lit]
+      have hk := keyword_isSome_of_firstLit hf hb
+      simp only [List.cons_append, List.nil_append] at hk ⊢
+      simp [identifier, hk]
   | .cond w c l1 l2 t l3 l4 e, h, hl => by
     obtain ⟨x, tl, hx, hsx⟩ := text_start c h.1
     obtain ⟨hx1, _, _, hx4, hx5⟩ := startChar_facts hsx
@@ -1786,6 +1898,37 @@ theorem ifHead_lamHead (hd : LamHead) (hnm : hd.namesOk = true) (w : Lay) (T : L
       rw [this]
       exact hname n hna _ (boundary_cons (by decide))
 
+theorem doHead_atom {e : Expr} (h : atomOk e = true) {rest : List Char} (hb : Boundary rest) :
+    doHead (atomText e ++ rest) = none := by
+  obtain ⟨hne, hall, _, _⟩ := atom_word (e := e) h
+  exact doHead_word hall (atomText_ne_do h) hne hb
+
+theorem doHead_lamHead (hd : LamHead) (hnm : hd.namesOk = true) (w : Lay) (T : List Char) :
+    doHead (hd.text ++ (layChars w ++ '=' :: T)) = none := by
+  have hbY : Boundary (layChars w ++ '=' :: T) := by
+    obtain ⟨d, tl', hXX, hd⟩ := lay_head w '=' T
+      (fun d => isIdentChar d = false) (by decide) (by decide) (by decide) (by decide) (by decide)
+    rw [hXX]; exact boundary_cons hd
+  simp only [LamHead.namesOk, Bool.and_eq_true, List.all_eq_true] at hnm
+  have hname : ∀ n : String, nameOk n = true → ∀ Y, Boundary Y → doHead (n.toList ++ Y) = none := by
+    intro n hn Y hY
+    obtain ⟨hw, hnot⟩ := nameOk_facts hn
+    refine doHead_word hw.all (fun e => hnot ?_) hw.ne_nil hY
+    rw [e]; decide +kernel
+  cases hd with
+  | unit l0 => exact doHead_none_of_head _ (by decide)
+  | parens l0 a more c => exact doHead_none_of_head _ (by decide)
+  | bare a =>
+    have hna : nameOk a.name = true := hnm.1 a (by simp [LamHead.args])
+    cases a with
+    | rest n => simp at hnm
+    | req n => exact hname n hna _ hbY
+    | opt n =>
+      have : LamHead.text (.bare (.opt n)) ++ (layChars w ++ '=' :: T) =
+          n.toList ++ '?' :: (layChars w ++ '=' :: T) := by simp [LamHead.text, argText]
+      rw [this]
+      exact hname n hna _ (boundary_cons (by decide))
+
 /-- in front of `then` / `else` (behind layout) a term ends and nothing continues an expression -/
 theorem kw_ends {kw : List Char} (h : kw = thenLit ∨ kw = elseLit) (l : Lay) (hl : l ≠ [])
     (T : List Char) : TEnd (layChars l ++ (kw ++ T)) ∧ Closes (layChars l ++ (kw ++ T)) := by
@@ -1955,6 +2098,458 @@ theorem boundary_lay_colon (w : Lay) (T : List Char) : Boundary (layChars w ++ '
     (by decide) (by decide) (by decide) (by decide) (by decide)
   rw [hXX]; exact boundary_cons hd
 
+/-! #### do-blocks -/
+
+theorem naturalLits_identChars : ∀ x ∈ naturalLits, ∀ c ∈ x.2, isIdentChar c = true := by
+  decide +kernel
+
+theorem CST.wordOpText_false {w : List Char} (h : CST.wordOpText w = false) : ∀ x ∈ naturalLits, x.2 ≠ w := by
+  intro x hx e
+  have : CST.wordOpText w = true := by
+    simp only [CST.wordOpText, List.any_eq_true, beq_iff_eq]
+    exact ⟨x, hx, e⟩
+  rw [h] at this; cases this
+
+/-- a word that is none of the literals: where one of them is found at its start, no blank
+    follows it -/
+theorem firstRule_word_ws {L : List (String × List Char)}
+    (hL : ∀ x ∈ L, ∀ c ∈ x.2, isIdentChar c = true) {w X : List Char}
+    (hall : ∀ x ∈ w, isIdentChar x = true) (hb : Boundary X) (hnot : ∀ x ∈ L, x.2 ≠ w)
+    {rule : String} {r : List Char} (h : firstRule L (w ++ X) = some (rule, r)) :
+    wsPlus r = none := by
+  obtain ⟨s, hs, he⟩ := firstRule_some h
+  rcases List.append_eq_append_iff.mp he with ⟨a', hsa, hra⟩ | ⟨c', hwc, hrc⟩
+  · cases a' with
+    | nil => simp only [List.append_nil] at hsa; exact absurd hsa (hnot _ hs)
+    | cons x a'' =>
+      exfalso
+      have hx : isIdentChar x = true := hL _ hs x (by rw [hsa]; simp)
+      have := boundary_class hb isIdentChar (fun _ h => h) x (a'' ++ r) (by simpa using hra)
+      rw [hx] at this; cases this
+  · cases c' with
+    | nil => simp only [List.append_nil] at hwc; exact absurd hwc.symm (hnot _ hs)
+    | cons x c'' =>
+      subst hrc
+      have hx : isIdentChar x = true := hall x (by simp [hwc])
+      obtain ⟨h1, h2, _⟩ := isIdentChar_cases hx
+      simp [wsPlus, plus, isWs, h1, h2]
+
+theorem infixLits_noIdentHead :
+    (infixLits.all fun x => match x.2 with | [] => false | a :: _ => !isIdentChar a) = true := by
+  decide +kernel
+
+theorem headsNe_infix_identChar {c : Char} (h : isIdentChar c = true) : headsNe infixLits c = true := by
+  simp only [headsNe, List.all_eq_true]
+  intro x hx
+  have := List.all_eq_true.mp infixLits_noIdentHead x hx
+  split at this
+  · cases this
+  · rename_i a t e
+    rw [e]
+    simp only [bne_iff_ne, ne_eq]
+    intro e'; subst e'
+    simp [h] at this
+
+/-- a word of identifier characters that is no word operator, behind any layout, is not taken
+    for an operator -/
+theorem infixUsage_word_none (lam : Bool) (g : Lay) {w X : List Char} (hne : w ≠ [])
+    (hall : ∀ x ∈ w, isIdentChar x = true) (hb : Boundary X) (hnot : CST.wordOpText w = false) :
+    infixUsage lam (layChars g ++ (w ++ X)) = none := by
+  cases hw : w with
+  | nil => exact absurd hw hne
+  | cons c w' =>
+    have hc : isIdentChar c = true := hall c (by rw [hw]; exact List.mem_cons_self)
+    have hLA : layoutAtom (c :: w' ++ X) = none := layoutAtom_none (notLayoutStart_of_identChar hc)
+    have hstar : layoutStar (layChars g ++ (c :: w' ++ X)) = c :: w' ++ X := layoutStar_run g _ hLA
+    have h2 : firstRule infixLits (c :: w' ++ X) = none :=
+      firstRule_none_of_headsNe (headsNe_infix_identChar hc)
+    have hws : ∀ rule r1, firstRule (if lam then lamNaturalLits else naturalLits) (c :: w' ++ X) =
+        some (rule, r1) → wsPlus r1 = none := by
+      intro rule r1 hf
+      rw [← hw] at hf
+      cases lam with
+      | false => exact firstRule_word_ws naturalLits_identChars hall hb (CST.wordOpText_false hnot) hf
+      | true =>
+        exact firstRule_word_ws (fun x hx => naturalLits_identChars x (lamNaturalLits_sub x hx)) hall hb
+          (fun x hx => CST.wordOpText_false hnot x (lamNaturalLits_sub x hx)) hf
+    unfold infixUsage
+    cases g with
+    | nil =>
+      simp only [layChars, List.nil_append, layoutPlus_none hLA]
+      have : layoutStar (c :: w' ++ X) = c :: w' ++ X := by simpa [layChars] using layoutStar_run [] _ hLA
+      simp only [this, h2]
+    | cons a g' =>
+      rw [layoutPlus_run (a :: g') (by simp) _ hLA, hstar, h2]
+      cases hf : firstRule (if lam then lamNaturalLits else naturalLits) (c :: w' ++ X) with
+      | none => simp only [hf]
+      | some p =>
+        obtain ⟨rule, r1⟩ := p
+        simp only [hf, hws rule r1 hf, Option.map_none]
+
+theorem open_heads : ∀ c ∈ ['"', '\'', '(', '[', '{'],
+    headsNe infixLits c = true ∧ headsNe naturalLits c = true ∧ notLayoutStart c = true := by
+  decide +kernel
+
+theorem infixLits_bang :
+    (infixLits.all fun x => match x.2 with
+      | [] => false
+      | a :: t => a != '!' || (match t with | b :: _ => b == '=' | [] => false)) = true := by
+  decide +kernel
+
+theorem firstRule_none_of_lit {L : List (String × List Char)} {cs : List Char}
+    (h : ∀ p ∈ L, lit p.2 cs = none) : firstRule L cs = none := by
+  induction L with
+  | nil => rfl
+  | cons x L ih =>
+    obtain ⟨r', s'⟩ := x
+    simp only [firstRule, h (r', s') List.mem_cons_self]
+    exact ih (fun p hp => h p (List.mem_cons_of_mem _ hp))
+
+/-- `!x` behind any layout, `x` not `=`, is not taken for an operator -/
+theorem infixUsage_bang (lam : Bool) (g : Lay) {x : Char} (tl : List Char) (hx : x ≠ '=') :
+    infixUsage lam (layChars g ++ '!' :: x :: tl) = none := by
+  have hLA : layoutAtom ('!' :: x :: tl) = none := layoutAtom_none (by decide)
+  have h1 : firstRule (natTable lam) ('!' :: x :: tl) = none :=
+    firstRule_none_of_headsNe (headsNe_nat lam (by decide +kernel))
+  have h2 : firstRule infixLits ('!' :: x :: tl) = none := by
+    apply firstRule_none_of_lit
+    intro p hp
+    have := List.all_eq_true.mp infixLits_bang p hp
+    split at this
+    · cases this
+    · rename_i a t e
+      rw [e]
+      simp only [Bool.or_eq_true, bne_iff_ne, ne_eq] at this
+      rcases this with ha | hb
+      · have : ¬ (a = '!') := ha
+        simp [lit, this]
+      · cases t with
+        | nil => cases hb
+        | cons b t' =>
+          simp only [beq_iff_eq] at hb
+          subst hb
+          have : ¬ ('=' = x) := fun e => hx e.symm
+          by_cases ha : a = '!'
+          · subst ha; simp [lit, this]
+          · simp [lit, ha]
+  have hpl : ∀ r, layoutPlus (layChars g ++ '!' :: x :: tl) = some r →
+      firstRule (natTable lam) r = none := by
+    intro r hr
+    cases g with
+    | nil => simp only [layChars, List.nil_append, layoutPlus_none hLA] at hr; cases hr
+    | cons y g' =>
+      rw [layoutPlus_run (y :: g') (by simp) _ hLA] at hr
+      cases hr; exact h1
+  rw [infixUsage_alt2 hpl, layoutStar_run g _ hLA, h2]
+  rfl
+
+theorem lay_ne_boundary {g : Lay} (hg : g ≠ []) (X : List Char) : Boundary (layChars g ++ X) := by
+  cases g with
+  | nil => exact absurd rfl hg
+  | cons a g' => cases a <;> exact boundary_cons (by decide)
+
+theorem postNone_lay_ne {g : Lay} (hg : g ≠ []) (X : List Char) : postNone (layChars g ++ X) := by
+  cases g with
+  | nil => exact absurd rfl hg
+  | cons a g' =>
+    cases a <;> exact postNone_of_char (by decide) (by decide) (by decide) (by decide)
+
+/-- layout with a line break in it: no lambda head ends in front of it -/
+theorem noLam_lay_nl : ∀ (g : Lay), (g.any fun a => !a.isWs) = true → ∀ X, NoLam (layChars g ++ X)
+  | [], h, _ => by simp at h
+  | a :: g', h, X => by
+    cases a
+    · have e : skipWs (layChars (LayAtom.sp :: g') ++ X) = skipWs (layChars g' ++ X) := by
+        simp only [layChars, LayAtom.chars, List.cons_append, List.nil_append, List.append_assoc]
+        exact skipWs_ws _ (by decide)
+      have ih := noLam_lay_nl g' (by simpa [LayAtom.isWs] using h) X
+      exact ⟨fun ⟨r, hr⟩ => ih.1 ⟨r, e ▸ hr⟩, fun r1 hr => ih.2 r1 (e ▸ hr)⟩
+    · have e : skipWs (layChars (LayAtom.tab :: g') ++ X) = skipWs (layChars g' ++ X) := by
+        simp only [layChars, LayAtom.chars, List.cons_append, List.nil_append, List.append_assoc]
+        exact skipWs_ws _ (by decide)
+      have ih := noLam_lay_nl g' (by simpa [LayAtom.isWs] using h) X
+      exact ⟨fun ⟨r, hr⟩ => ih.1 ⟨r, e ▸ hr⟩, fun r1 hr => ih.2 r1 (e ▸ hr)⟩
+    · simp only [layChars, LayAtom.chars, List.cons_append, List.nil_append, List.append_assoc]
+      exact noLam_of_head (by decide) (by decide) (by decide)
+    · simp only [layChars, LayAtom.chars, List.cons_append, List.nil_append, List.append_assoc]
+      exact noLam_of_head (by decide) (by decide) (by decide)
+
+theorem any_nl_ne {g : Lay} (h : (g.any fun a => !a.isWs) = true) : g ≠ [] := by
+  intro e; subst e; simp at h
+
+/-- a statement that may stand behind a line break (`headOk`) is not taken for the continuation
+    of the expression before it -/
+theorem infixUsage_headOk : ∀ (c : CST), c.headOk → c.Shaped → c.LayoutOk →
+    ∀ (g : Lay) (X : List Char) (lam : Bool), Boundary X →
+      infixUsage lam (layChars g ++ (c.text ++ X)) = none
+  | .atom e, hh, hs, _ => by
+    intro g X lam hb
+    obtain ⟨hne, hall, _, _⟩ := atom_word (e := e) hs
+    exact infixUsage_word_none lam g hne hall hb hh
+  | .str dq s, _, _, _ => by
+    intro g X lam _
+    cases dq
+    · obtain ⟨h1, h2, h3⟩ := open_heads '\'' (by simp)
+      exact infixUsage_none_of_heads lam g '\'' _ h1 h2 h3
+    · obtain ⟨h1, h2, h3⟩ := open_heads '"' (by simp)
+      exact infixUsage_none_of_heads lam g '"' _ h1 h2 h3
+  | .bin op l a b r, hh, hs, hl => by
+    intro g X lam _
+    obtain ⟨x, tl, hx, hsx⟩ := text_start r hs.2.1
+    obtain ⟨_, _, hB⟩ := op_gap false op (fun e => by cases e) a b hl.2.2 x (tl ++ X) hsx
+    have := infixUsage_headOk l hh hs.1 hl.1 g
+      (layChars a ++ (spell op ++ (layChars b ++ x :: (tl ++ X)))) lam hB.1
+    simpa only [CST.text, hx, List.append_assoc, List.cons_append] using this
+  | .un op e, hh, hs, _ => by
+    intro g X lam _
+    have hop : op = .not := hh
+    subst hop
+    obtain ⟨x, tl, hx, hsx⟩ := text_start e hs.2.1
+    have := infixUsage_bang lam g (x := x) (tl ++ X) (startChar_facts hsx).2.1
+    have ht : (CST.un .not e).text ++ X = '!' :: x :: (tl ++ X) := by
+      simp only [CST.text, hx, List.cons_append, List.append_assoc]; rfl
+    rw [ht]; exact this
+  | .fact e, hh, hs, hl => by
+    intro g X lam _
+    have := infixUsage_headOk e hh hs.1 hl g ('!' :: X) lam (boundary_cons (by decide))
+    simpa only [CST.text, List.append_assoc, List.cons_append, List.nil_append] using this
+  | .paren a e b, _, _, _ => by
+    intro g X lam _
+    obtain ⟨h1, h2, h3⟩ := open_heads '(' (by simp)
+    exact infixUsage_none_of_heads lam g '(' _ h1 h2 h3
+  | .call0 f l, hh, hs, hl => by
+    intro g X lam _
+    have := infixUsage_headOk f hh hs.1 hl g ('(' :: (layChars l ++ ')' :: X)) lam
+      (boundary_cons (by decide))
+    simpa only [CST.text, List.append_assoc, List.cons_append, List.nil_append] using this
+  | .call f l as c, hh, hs, hl => by
+    intro g X lam _
+    have := infixUsage_headOk f hh hs.1 hl.1 g
+      ('(' :: (layChars l ++ (CST.argsText as ++ (c.text ')' ++ X)))) lam (boundary_cons (by decide))
+    simpa only [CST.text, List.append_assoc, List.cons_append, List.nil_append] using this
+  | .access e a i b, hh, hs, hl => by
+    intro g X lam _
+    have := infixUsage_headOk e hh hs.1 hl.1 g
+      ('[' :: (layChars a ++ (i.text ++ (layChars b ++ ']' :: X)))) lam (boundary_cons (by decide))
+    simpa only [CST.text, List.append_assoc, List.cons_append, List.nil_append] using this
+  | .dot e n, hh, hs, hl => by
+    intro g X lam _
+    have := infixUsage_headOk e hh hs.1 hl g ('.' :: (n.toList ++ X)) lam (boundary_cons (by decide))
+    simpa only [CST.text, List.append_assoc, List.cons_append, List.nil_append] using this
+  | .list0 l, _, _, _ => by
+    intro g X lam _
+    obtain ⟨h1, h2, h3⟩ := open_heads '[' (by simp)
+    exact infixUsage_none_of_heads lam g '[' _ h1 h2 h3
+  | .list l as c, _, _, _ => by
+    intro g X lam _
+    obtain ⟨h1, h2, h3⟩ := open_heads '[' (by simp)
+    exact infixUsage_none_of_heads lam g '[' _ h1 h2 h3
+  | .rec0 l, _, _, _ => by
+    intro g X lam _
+    obtain ⟨h1, h2, h3⟩ := open_heads '{' (by simp)
+    exact infixUsage_none_of_heads lam g '{' _ h1 h2 h3
+  | .record l es c, _, _, _ => by
+    intro g X lam _
+    obtain ⟨h1, h2, h3⟩ := open_heads '{' (by simp)
+    exact infixUsage_none_of_heads lam g '{' _ h1 h2 h3
+  | .cond w c l1 l2 t l3 l4 e, _, _, hl => by
+    intro g X lam _
+    have hw : w ≠ [] := hl.1.1
+    have := infixUsage_word_none lam g (w := ['i', 'f']) (by simp) (by decide)
+      (lay_ne_boundary hw (c.text ++ (layChars l1 ++ (thenLit ++ (layChars l2 ++ (t.text ++
+        (layChars l3 ++ (elseLit ++ (layChars l4 ++ (e.text ++ X))))))))))
+      (by decide +kernel)
+    simpa only [CST.text, List.append_assoc, List.cons_append, List.nil_append] using this
+  | .doB l0 l1 ss w e l2, _, _, hl => by
+    intro g X lam _
+    have hl0 : l0 ≠ [] := hl.1.1
+    have := infixUsage_word_none lam g (w := ['d', 'o']) (by simp) (by decide)
+      (lay_ne_boundary hl0 ('{' :: (layChars l1 ++ (CST.stmtsText ss ++ (retLit ++ (layChars w ++
+        (e.text ++ (layChars l2 ++ '}' :: X))))))))
+      (by decide +kernel)
+    simpa only [CST.text, List.append_assoc, List.cons_append, List.nil_append] using this
+  | .lambda hd w l b, hh, hs, hl => by
+    intro g X lam _
+    have hnm := hs.1
+    cases hd with
+    | unit l0 =>
+      obtain ⟨h1, h2, h3⟩ := open_heads '(' (by simp)
+      exact infixUsage_none_of_heads lam g '(' _ h1 h2 h3
+    | parens l0 a more c =>
+      obtain ⟨h1, h2, h3⟩ := open_heads '(' (by simp)
+      exact infixUsage_none_of_heads lam g '(' _ h1 h2 h3
+    | bare a =>
+      simp only [LamHead.namesOk, LamHead.args, List.all_cons, List.all_nil, Bool.and_true,
+        Bool.and_eq_true] at hnm
+      have hho : CST.wordOpText a.name.toList = false := by
+        have : CST.lamHeadOk [a] = true := hh
+        simpa [CST.lamHeadOk] using this
+      obtain ⟨hshape, _⟩ := nameOk_facts hnm.1
+      cases a with
+      | rest n => simp at hnm
+      | req n =>
+        have hbd : Boundary (layChars w ++ '=' :: '>' :: (layChars l ++ (b.text ++ X))) := by
+          obtain ⟨d, tl', hXX, hd⟩ := lay_head w '=' ('>' :: (layChars l ++ (b.text ++ X)))
+            (fun d => isIdentChar d = false) (by decide) (by decide) (by decide) (by decide) (by decide)
+          rw [hXX]; exact boundary_cons hd
+        have := infixUsage_word_none lam g hshape.ne_nil hshape.all hbd hho
+        simpa only [CST.text, LamHead.text, argText, LArg.name, List.append_assoc, List.cons_append]
+          using this
+      | opt n =>
+        have := infixUsage_word_none lam g hshape.ne_nil hshape.all
+          (X := '?' :: (layChars w ++ '=' :: '>' :: (layChars l ++ (b.text ++ X))))
+          (boundary_cons (by decide)) hho
+        simpa only [CST.text, LamHead.text, argText, LArg.name, List.append_assoc, List.cons_append,
+          List.nil_append] using this
+
+/-! the fixed parts of a do-block on given texts -/
+
+theorem doHead_run (l0 l1 : Lay) (h0 : l0 ≠ []) {c : Char} (rest : List Char)
+    (hc : notLayoutStart c = true) :
+    doHead ('d' :: 'o' :: (layChars l0 ++ '{' :: (layChars l1 ++ c :: rest))) = some (c :: rest) := by
+  cases l0 with
+  | nil => exact absurd rfl h0
+  | cons a l0' =>
+    have hw : wnPlus (layChars (a :: l0') ++ '{' :: (layChars l1 ++ c :: rest)) =
+        some ('{' :: (layChars l1 ++ c :: rest)) := by
+      simp only [wnPlus, layChars, List.append_assoc, wnAtom_atom, Option.map_some,
+        wnStar_run l0' _ (c := '{') (by decide)]
+    simp only [doHead, lit, if_true, hw, gapG_run l1 rest hc]
+
+theorem retHead_run (w : Lay) (hw : w ≠ []) (hws : wsOnly w = true) (x : Char) (tl : List Char)
+    (hx : isWs x = false) : retHead (retLit ++ (layChars w ++ x :: tl)) = some (x :: tl) := by
+  have hsk : skipWs (retLit ++ (layChars w ++ x :: tl)) = retLit ++ (layChars w ++ x :: tl) :=
+    skipWs_head _ (by decide)
+  simp only [retHead, hsk]
+  show (match lit retLit (retLit ++ (layChars w ++ x :: tl)) with
+    | some r => wsPlus r | none => none) = some (x :: tl)
+  rw [lit_append]
+  exact wsPlus_run w hw hws x tl hx
+
+/-- no expression starts at `return` -/
+theorem exprR_return {Y : List Char} (hb : Boundary Y) (f : Nat) :
+    exprR false (f + 4) (retLit ++ Y) = .fail := by
+  have hall : ∀ x ∈ retLit, isIdentChar x = true := by decide
+  have hp : prefixUsage (retLit ++ Y) = none :=
+    prefixUsage_word (w := retLit) (by decide) hall (by decide) hb
+  have hid : identifier (retLit ++ Y) = none := by
+    have hf : firstLit reservedLits (retLit ++ Y) = some (retLit, Y) := by
+      simp [firstLit, reservedLits, Gen.grammarReserved, retLit, lit]
+    have hk := keyword_isSome_of_firstLit hf hb
+    simp only [retLit, List.cons_append, List.nil_append] at hk ⊢
+    simp [identifier, hk]
+  have hta : termAtom (retLit ++ Y) = none := by
+    have h1 : boolRule (retLit ++ Y) = none := by
+      simp [retLit, boolRule, keyword, firstLit, trueLit, falseLit, lit]
+    have h2 : nullRule (retLit ++ Y) = none := by
+      simp [retLit, nullRule, keyword, firstLit, nullLit, lit]
+    have h4 : plus isDigit (retLit ++ Y) = none := by
+      have : isDigit 'r' = false := by decide
+      simp [retLit, plus, this]
+    simp only [termAtom, h1, stringRule_none_word (w := retLit) (by decide) hall Y, h2, hid, h4]
+  have ht2 : term2R (f + 1) (retLit ++ Y) = .fail := by
+    rw [term2R_succ, hta]
+    simp only [retLit, List.cons_append, List.nil_append]
+    split
+    · rename_i r1 heq; simp at heq
+    · rename_i r1 heq; simp at heq
+    · rename_i r1 heq; simp at heq
+    · rfl
+  have hlam : lambdaHead (retLit ++ Y) = none := by
+    refine lambdaHead_noarg ?_ (fun r e => by simp [retLit] at e)
+    simp only [argumentR, hid]
+    simp [retLit, spreadLit_eq, lit]
+  have ht : termR (f + 2) (retLit ++ Y) = .fail := by
+    rw [termR_succ, condR_succ,
+      show ifHead (retLit ++ Y) = none from ifHead_none_of_head _ (by decide), doR_succ,
+      show doHead (retLit ++ Y) = none from doHead_none_of_head _ (by decide), lamR_succ, hlam]
+    exact ht2
+  rw [exprR_succ, operandR_succ, prefixStar_none hp, ht]
+
+/-- a greedy run of line breaks consumes a prefix of a layout string -/
+theorem star_plainNewline_lay (n : Nat) (l : Lay) {c : Char} (rest : List Char)
+    (hc : notLayoutStart c = true) :
+    ∃ l2, star plainNewline n (layChars l ++ c :: rest) = layChars l2 ++ c :: rest := by
+  induction n generalizing l with
+  | zero => exact ⟨l, rfl⟩
+  | succ m ih =>
+    cases l with
+    | nil =>
+      refine ⟨[], ?_⟩
+      have : plainNewline (c :: rest) = none := by
+        have := (list_atoms_none (r := rest) hc).1
+        simp only [wnAtom, orElse] at this
+        split at this
+        · cases this
+        · exact this
+      simp only [layChars, List.nil_append, star, this]
+    | cons a l' =>
+      cases a
+      · exact ⟨.sp :: l', by simp [star, layChars, LayAtom.chars, plainNewline, orElse, lit]⟩
+      · exact ⟨.tab :: l', by simp [star, layChars, LayAtom.chars, plainNewline, orElse, lit]⟩
+      · obtain ⟨l2, h2⟩ := ih l'
+        exact ⟨l2, by simpa [star, layChars, LayAtom.chars, plainNewline, orElse, lit] using h2⟩
+      · obtain ⟨l2, h2⟩ := ih l'
+        exact ⟨l2, by simpa [star, layChars, LayAtom.chars, plainNewline, orElse, lit] using h2⟩
+
+/-- behind a statement: blanks, `;`, any layout -/
+theorem stmtSep_semi (w l : Lay) (hw : wsOnly w = true) {c : Char} (rest : List Char)
+    (hc : notLayoutStart c = true) :
+    (stmtSep (skipWs (itemTrail (layChars w ++ ';' :: (layChars l ++ c :: rest))))).map gapG =
+      some (c :: rest) := by
+  rw [itemTrail_ws w hw _ (c := ';') (by decide), skipWs_cons _ (by decide)]
+  have : plainNewline (';' :: (layChars l ++ c :: rest)) = none := by
+    simp [plainNewline, orElse, lit]
+  simp only [stmtSep, this, Option.map_some, gapG_run l rest hc]
+
+/-- … or a layout string with a line break in it -/
+theorem stmtSep_line (g : Lay) (hg : (g.any fun a => !a.isWs) = true) {c : Char} (rest : List Char)
+    (hc : notLayoutStart c = true) :
+    (stmtSep (skipWs (itemTrail (layChars g ++ c :: rest)))).map gapG = some (c :: rest) := by
+  obtain ⟨w', nl, l', rfl, hw', hnl⟩ := lay_split_nl g hg
+  have hws : isWs c = false := by
+    simp only [notLayoutStart, Bool.not_eq_true', Bool.or_eq_false_iff, beq_eq_false_iff_ne,
+      ne_eq] at hc
+    simp [isWs, hc.1.1.1.1, hc.1.1.1.2]
+  have h1 : skipWs (layChars (w' ++ nl :: l') ++ c :: rest) = nl.chars ++ (layChars l' ++ c :: rest) := by
+    simp only [layChars_append, layChars, List.append_assoc]
+    cases nl <;> simp [LayAtom.isWs] at hnl
+    · exact skipWs_run w' hw' '\n' _ (by decide)
+    · exact skipWs_run w' hw' '\r' _ (by decide)
+  have hit : itemTrail (layChars (w' ++ nl :: l') ++ c :: rest) =
+      nl.chars ++ (layChars l' ++ c :: rest) := by
+    unfold itemTrail
+    rw [h1, inlineComment_atom]
+  have hsk : skipWs (nl.chars ++ (layChars l' ++ c :: rest)) = nl.chars ++ (layChars l' ++ c :: rest) := by
+    cases nl <;> simp [LayAtom.isWs] at hnl <;> exact skipWs_head _ (by decide)
+  have hpn : plainNewline (nl.chars ++ (layChars l' ++ c :: rest)) = some (layChars l' ++ c :: rest) := by
+    cases nl <;> simp [LayAtom.isWs] at hnl <;> simp [LayAtom.chars, plainNewline, orElse, lit]
+  obtain ⟨l2, h2⟩ := star_plainNewline_lay ((layChars l' ++ c :: rest).length + 1) l' rest hc
+  rw [hit, hsk]
+  simp only [stmtSep, hpn, Option.map_some, h2, gapG_run l2 rest hc]
+
+theorem sep_boundary (sep : Sep) (hs : sep.ok = true) (Z : List Char) : Boundary (sep.text ++ Z) := by
+  cases sep with
+  | semi w l =>
+    obtain ⟨d, tl', hXX, hd⟩ := lay_head w ';' (layChars l ++ Z) (fun d => isIdentChar d = false)
+      (by decide) (by decide) (by decide) (by decide) (by decide)
+    have : Sep.text (.semi w l) ++ Z = layChars w ++ ';' :: (layChars l ++ Z) := by simp [Sep.text]
+    rw [this, hXX]; exact boundary_cons hd
+  | line g =>
+    exact lay_ne_boundary (any_nl_ne hs) Z
+
+theorem semi_heads : headsNe infixLits ';' = true ∧ headsNe naturalLits ';' = true := by
+  decide +kernel
+
+/-- first character of the statements and the `return` behind them -/
+theorem stmts_start : ∀ (ss : Stmts), CST.StmtsShaped ss → ∀ Y,
+    ∃ x tl, CST.stmtsText ss ++ (retLit ++ Y) = x :: tl ∧ notLayoutStart x = true
+  | .nil, _, Y => ⟨'r', _, rfl, by decide⟩
+  | .cons s sep rest, hs, Y => by
+    obtain ⟨x, tl, hx, hsx⟩ := text_start s hs.1
+    exact ⟨x, _, by simp only [CST.stmtsText, hx, List.append_assoc, List.cons_append]; rfl,
+      (startChar_facts hsx).1⟩
+
 /-! #### string literals -/
 
 theorem prefixUsage_quote (dq : Bool) (X : List Char) : prefixUsage (quoteChar dq :: X) = none := by
@@ -1992,13 +2587,15 @@ theorem lex_cst : ∀ (lam : Bool) (c : CST), c.Shaped → c.LayoutOk → (lam =
       prefixStar_none (prefixUsage_word hne hall hnot hb.1)
     have ht2 : term2R 1 (atomText e ++ rest) = .ok (e, rest) := by
       rw [term2R_succ, hterm rest hb.1]
-    exact ex_of_term hp (termR_of_term2 (ifHead_atom h hb.1) (lambdaHead_atom h hb) ht2) hk
+    exact ex_of_term hp (termR_of_term2 (ifHead_atom h hb.1) (doHead_atom h hb.1)
+      (lambdaHead_atom h hb) ht2) hk
   | lam, .str dq s, _, hl, _ => by
     intro rest its r hb _ hk
     have ht2 : term2R 1 (quoteChar dq :: (s.toList ++ quoteChar dq :: rest)) = .ok (.str s, rest) := by
       rw [term2R_succ, termAtom_string dq s hl rest]
     have := ex_of_term (prefixStar_none (prefixUsage_quote dq _))
-      (termR_of_term2 (ifHead_none_of_head _ (by cases dq <;> decide)) (lambdaHead_quote dq _) ht2) hk
+      (termR_of_term2 (ifHead_none_of_head _ (by cases dq <;> decide))
+        (doHead_none_of_head _ (by cases dq <;> decide)) (lambdaHead_quote dq _) ht2) hk
     simp only [CST.text, CST.items, List.append_assoc, List.cons_append, List.nil_append,
       List.singleton_append] at this ⊢
     exact this
@@ -2050,7 +2647,8 @@ theorem lex_cst : ∀ (lam : Bool) (c : CST), c.Shaped → c.LayoutOk → (lam =
       simp only [termAtom_paren, layoutStar_run a _ hla, hf,
         layoutStar_run b _ (layoutAtom_none (c := ')') (by decide)), cst_pratt e hse]
     have := ex_of_term (prefixStar_none (prefixUsage_paren _))
-      (termR_of_term2 (ifHead_none_of_head _ (by decide)) (lambdaHead_paren a e b rest hse hl hb.2) ht2) hk
+      (termR_of_term2 (ifHead_none_of_head _ (by decide)) (doHead_none_of_head _ (by decide))
+        (lambdaHead_paren a e b rest hse hl hb.2) ht2) hk
     simp only [CST.text, CST.items, List.append_assoc, List.cons_append, List.nil_append] at this ⊢
     exact this
   | lam, .call0 f l, h, hl, hls => by
@@ -2137,7 +2735,8 @@ theorem lex_cst : ∀ (lam : Bool) (c : CST), c.Shaped → c.LayoutOk → (lam =
       simp only [termAtom_bracket, gapG_run l rest (c := ']') (by decide),
         argR_stop true (c := ']') rest (by decide) 0, hc]
     have := ex_of_term (prefixStar_none (prefixUsage_bracket _))
-      (termR_of_term2 (ifHead_none_of_head _ (by decide)) (lambdaHead_bracket _) ht2) hk
+      (termR_of_term2 (ifHead_none_of_head _ (by decide)) (doHead_none_of_head _ (by decide))
+        (lambdaHead_bracket _) ht2) hk
     simp only [CST.text, CST.items, List.append_assoc, List.cons_append, List.nil_append,
       List.singleton_append] at this ⊢
     exact this
@@ -2157,7 +2756,8 @@ theorem lex_cst : ∀ (lam : Bool) (c : CST), c.Shaped → c.LayoutOk → (lam =
       simp only [trailL, if_true] at hm
       simp only [termAtom_bracket, hgap, ha, hm, listClose_text c hlc rest, htr]
     have := ex_of_term (prefixStar_none (prefixUsage_bracket _))
-      (termR_of_term2 (ifHead_none_of_head _ (by decide)) (lambdaHead_bracket _) ht2) hk
+      (termR_of_term2 (ifHead_none_of_head _ (by decide)) (doHead_none_of_head _ (by decide))
+        (lambdaHead_bracket _) ht2) hk
     simp only [CST.text, CST.items, List.append_assoc, List.cons_append, List.nil_append,
       List.singleton_append] at this ⊢
     exact this
@@ -2174,8 +2774,8 @@ theorem lex_cst : ∀ (lam : Bool) (c : CST), c.Shaped → c.LayoutOk → (lam =
       rw [hx, List.cons_append]; exact layoutAtom_none (startChar_facts hsx).1
     have ht : termR (g + 2) (hd.text ++ (layChars w ++ '=' :: '>' :: (layChars l ++ (b.text ++ rest)))) =
         .ok (.lambda hd.args b.tree, rest) := by
-      rw [termR_succ, condR_succ, ifHead_lamHead hd hnm w _, lamR_succ,
-        lambdaHead_text hd hok hnm w l hw _ hX]
+      rw [termR_succ, condR_succ, ifHead_lamHead hd hnm w _, doR_succ, doHead_lamHead hd hnm w _,
+        lamR_succ, lambdaHead_text hd hok hnm w l hw _ hX]
       simp only [hg, cst_pratt b hsb]
     have := ex_of_term (prefixStar_none (lamHead_prefix hd hnm w _)) ht hk
     simp only [CST.text, CST.items, List.append_assoc, List.cons_append, List.nil_append,
@@ -2250,7 +2850,8 @@ theorem lex_cst : ∀ (lam : Bool) (c : CST), c.Shaped → c.LayoutOk → (lam =
       simp only [Close.text, layChars, List.nil_append, List.singleton_append, hit] at hc
       simp only [termAtom_brace, gapG_run l rest (c := '}') (by decide), recItemR_brace rest 0, hc]
     have := ex_of_term (prefixStar_none (prefixUsage_brace _))
-      (termR_of_term2 (ifHead_none_of_head _ (by decide)) (lambdaHead_brace _) ht2) hk
+      (termR_of_term2 (ifHead_none_of_head _ (by decide)) (doHead_none_of_head _ (by decide))
+        (lambdaHead_brace _) ht2) hk
     simp only [CST.text, CST.items, List.append_assoc, List.cons_append, List.nil_append,
       List.singleton_append] at this ⊢
     exact this
@@ -2269,7 +2870,8 @@ theorem lex_cst : ∀ (lam : Bool) (c : CST), c.Shaped → c.LayoutOk → (lam =
         rw [hx, List.cons_append]; exact gapG_run l _ hsx
       simp only [termAtom_brace, hgap, ha, hm, recordClose_text c hlc rest, htr]
     have := ex_of_term (prefixStar_none (prefixUsage_brace _))
-      (termR_of_term2 (ifHead_none_of_head _ (by decide)) (lambdaHead_brace _) ht2) hk
+      (termR_of_term2 (ifHead_none_of_head _ (by decide)) (doHead_none_of_head _ (by decide))
+        (lambdaHead_brace _) ht2) hk
     simp only [CST.text, CST.items, List.append_assoc, List.cons_append, List.nil_append,
       List.singleton_append] at this ⊢
     exact this
